@@ -118,10 +118,10 @@ theorem opLock_sorted (db : DB) (c : Cmd) (h : DBSorted db) : DBSorted (opLock d
   | «show» cur | updateEqual h' | relockNoHold h' | relockRefused h' => exact h
   | update h' =>
     simp only [applyLock]
-    exact setKey_sorted (h.of_keys_eq (updateHold_db_keys _ _ _)) hk
+    exact wake_setKey_sorted _ h (updateHold_db_keys _ _ _) hk
   | relock h' =>
     simp only [applyLock]
-    exact setKey_sorted (h.of_keys_eq (by simp [updateHold_db_keys])) hk
+    exact wake_setKey_sorted _ h (by simp [updateHold_db_keys]) hk
   | grant =>
     simp only [applyLock]
     have hg : PrioSorted (grantHold db (db.getKey c.key) c).2.waiters := by rw [grantHold_waiters_eq]; exact hk
@@ -144,7 +144,7 @@ theorem opUnlock_sorted (db : DB) (c : Cmd) (h : DBSorted db) : DBSorted (opUnlo
   | stateError | notLocked | unown | cancelNone => exact h.of_keys_eq rfl
   | cancel w =>
     simp only [applyUnlock]
-    exact setKey_sorted (h.of_keys_eq rfl) (hk.sublist (removeWaiter_sublist _ _))
+    exact wake_setKey_sorted _ h rfl (hk.sublist (removeWaiter_sublist _ _))
   | dec h' c' =>
     simp only [applyUnlock]
     exact wake_setKey_sorted _ h rfl hk
@@ -169,7 +169,7 @@ theorem opUnlock_qinv (db : DB) (c : Cmd) (h : QInv db) : QInv (opUnlock db c).1
 theorem fireTimeout_qinv (db : DB) (key : Nat) (w : Waiter) (h : QInv db) : QInv (fireTimeout db key w).1 := by
   refine ⟨h.1.of_sub (fun x hx => mem_allW_fireTimeout hx), ?_⟩
   unfold fireTimeout
-  exact setKey_sorted (h.2.of_keys_eq rfl) ((getKey_sorted h.2 key).sublist (removeWaiter_sublist _ _))
+  exact wake_setKey_sorted _ h.2 rfl ((getKey_sorted h.2 key).sublist (removeWaiter_sublist _ _))
 
 theorem fireExpire_qinv (db : DB) (key : Nat) (hd : Hold) (h : QInv db) : QInv (fireExpire db key hd).1 := by
   refine ⟨h.1.of_sub (fun x hx => mem_allW_fireExpire hx), ?_⟩
